@@ -16,6 +16,9 @@ MP = "EasyFEA.Models.InElastic._materialpoint"
 
 
 def run(ctx):
+    from ..shared import snapshot_rule as _snapshot_rule
+
+    _snapshot_rule(ctx, "R19.12", scope=lambda ci: ci.module.name.startswith(("EasyFEA.Models", "EasyFEA.Simulations")))
     multiplier_column_rule(ctx)
     from ..shared import commit_idempotent_rule as _commit_idempotent_rule
 
